@@ -237,7 +237,8 @@ func genSpec(h *vh.H, name string, wide bool) *Spec {
 		names := []string{"ALPHA", "BETA", "GAMMA", "DELTA", "EPSILON"}
 		s.EOpts = append([]string{}, names[:n]...)
 		if h.Chance(1, 4) {
-			s.EPre = ps(vh.Pick(h, []string{"XX_", "MY_PREFIX_"}))
+			// enum values live in the package scope: keep declared prefixes distinct per field
+			s.EPre = ps(vh.Pick(h, []string{"XX_", "MY_PREFIX_"}) + strings.ToUpper(name) + "_")
 		}
 		if h.Chance(1, 5) {
 			// explicit unspecified first option
